@@ -23,6 +23,8 @@ def make_wl(rng, k):
     spec["jitter"] = rng.choice([1, 3, 8])
     spec["deep_gene"] = 1 if (k is not None and k % 4 == 0) or rng.random() < 0.25 else 0
     spec["truncate"] = 1 if spec["deep_gene"] else spec.get("truncate", 1)
+    # multi-mapped reads whose kept record(s) name one gene but two isoforms (labels vs. number of features)
+    spec["ambig_multi"] = rng.choice([2, 4, 6])
     return spec, opts
 
 
